@@ -174,6 +174,9 @@ func (tr *Tr) quiesce() {
 	// handler's nested enqueue and done=2 after it finished, with the nested event still unhandled
 	// (observed once in ~70 000 traces).
 	deadline := time.Now().Add(10 * time.Second)
+	if tr.dead {
+		return
+	}
 	for i := 0; ; i++ {
 		d := tr.ctx.done.Load()
 		e := tr.ctx.enq.Load()
@@ -189,9 +192,37 @@ func (tr *Tr) quiesce() {
 			time.Sleep(50 * time.Microsecond)
 		}
 		if time.Now().After(deadline) {
+			// Events were enqueued to a handler and never handed to it.  That is a verdict only with structural evidence:
+			// the counters stand still across several samples AND no goroutine is inside a handler any more (nothing is
+			// in flight - the events sit in a queue nobody reads).  Anything else stays a harness failure.
+			if ev, ok := lostEvidence(tr.ctx); ok {
+				tr.t.Event("Lost", rt.M{"enq": tr.ctx.enq.Load(), "done": tr.ctx.done.Load(), "evidence": ev})
+				tr.dead = true
+				return
+			}
 			rt.Fatalf("c09: handlers did not quiesce (enq=%d done=%d)", tr.ctx.enq.Load(), tr.ctx.done.Load())
 		}
 	}
+}
+
+// lostEvidence: enq/done unchanged over 5 samples 100 ms apart and no goroutine running handler code.
+func lostEvidence(c *tctx) (string, bool) {
+	e0, d0 := c.enq.Load(), c.done.Load()
+	for i := 0; i < 5; i++ {
+		time.Sleep(100 * time.Millisecond)
+		if c.enq.Load() != e0 || c.done.Load() != d0 {
+			return "", false
+		}
+		buf := make([]byte, 1<<22)
+		dump := string(buf[:runtime.Stack(buf, true)])
+		for _, g := range strings.Split(dump, "\n\n") {
+			// a goroutine that is handling an event: bufHandler.run calling into a handler
+			if strings.Contains(g, "alert.(*bufHandler).run") && (strings.Contains(g, ").Handle(") || strings.Contains(g, "[running]") || strings.Contains(g, "[runnable]")) {
+				return "", false
+			}
+		}
+	}
+	return fmt.Sprintf("%d event(s) enqueued and never handled; counters unchanged over 5 samples, no goroutine inside a handler", e0-d0), true
 }
 
 func (tr *Tr) spec(h string, c Cfg) alertservice.HandlerSpec {
@@ -388,6 +419,20 @@ func (tr *Tr) CloseRestore(topic string) {
 		rt.Fatalf("c09: CloseTopic: %v", err)
 	}
 	tr.t.Event("CloseRestore", rt.M{"topic": topic})
+}
+
+// RestoreNow calls RestoreTopic explicitly (what the task store does when it restarts a task): in model terms nothing
+// changes - the topic already holds what the store holds.  The next Collect may restore once more (the closed flag is
+// only cleared there); the states must come out right all the same.
+func (tr *Tr) RestoreNow(topic string) {
+	if tr.dead {
+		return
+	}
+	if err := tr.svc.S.RestoreTopic(tr.real(topic)); err != nil {
+		tr.apiError("RestoreTopic "+topic, err)
+		return
+	}
+	tr.t.Event("RestoreNow", rt.M{"topic": topic})
 }
 
 // Obs records everything the API reports about both topics and what every recorder has seen.
